@@ -9,6 +9,33 @@ NOTE_COMMON = ('Trusted base: CrossHair 0.0.110 (symbolic execution of the real 
 	'the two interpreter shims of vlib/prelude.py. Every bound, stub and assume is listed in the evidence file; a timeout / unknown is reported as inconclusive, never as discharged.')
 
 CHECKS = {
+	'C10': {
+		'category': 'model_checking',
+		'technique': 'bounded symbolic case analysis (CrossHair + z3) over tree shapes and query orders, real finder/cache/query/resolver code run on every feasible shape; reference = documented path rule + independent walk of the shape',
+		'text': 'For every tree of the stated shape family (children / grandchildren tag sequences over repeated, unique and empty tags, optional great-grandchild, optional nine extra same-tag leaves for two-digit indices) '
+			'the solver-exhausted paths show: full_pathfy yields exactly one path per entry in document order by the documented rule, pluck/exists return that very entry, ids are dense in document order, '
+			'children/siblings/parent/ancestor agree with the shape, and on synthetic real-tag modules the node class per path is the same under all pairs of 24 query orders and equal to a fresh resolver\'s answer. Shapes beyond the family are not claimed.',
+		'design_ref': 'DESIGN.md section 2, C10',
+		'note': 'Finite case split (F): shape codes are symbolic ints, each path is one concrete tree. Tags are int-selected, not symbolic strings. ' + NOTE_COMMON,
+	},
+	'C13': {
+		'category': 'model_checking',
+		'technique': 'bounded symbolic execution (CrossHair + z3) of the real lexer/tokenizer on symbolic source buffers over character-class alphabets; differential against a reference lexer validated against CPython tokenize',
+		'text': 'For every source buffer up to the stated length over alphabets of character classes (a class such as all letters stays one path): raw tokens concatenate to the source and their spans address exactly their text, '
+			'no exception escapes, Indent/Dedent balance and brackets suppress line structure, the significant token sequence equals CPython\'s (through a reference lexer that is compared with the real tokenize module before every run), '
+			'and layout-only rewrites (blank next to an operator, trailing blanks, comments, blank/comment lines, indentation unit) leave it unchanged. Bounded by buffer length; longer sources are not claimed.',
+		'design_ref': 'DESIGN.md section 2, C13',
+		'note': 'Lexical subset and layout domain as listed in the evidence assumptions; tokenizer.re.split is shimmed for the backslash-free continuation pattern. ' + NOTE_COMMON,
+	},
+	'C17': {
+		'category': 'model_checking',
+		'technique': 'bounded symbolic execution (CrossHair + z3) of the evaluator kernels on unbounded symbolic ints / symbolic literal text, plus direct QF_BVFP queries (cvc5 + z3) generated from the AST of the current evaluator source',
+		'text': 'z3 closes every path of _op_bin_each/_calc/_bitwise for int operands (+ - * % shifts unbounded; | ^ & small range), 3-operand left folds, unary sign, DEC/HEX literal decoding, string concatenation over all quote-kind pairs and the scalar casts against CPython semantics '
+			'(equal value and type, or refusal). K2 specialises the current source per operand-type triple and asks cvc5/z3 whether any signed 64-bit / binary64 operands give a value different from CPython\'s (int/int true division through a binary128 oracle). '
+			'Counterexamples are replayed on the real evaluator.',
+		'design_ref': 'DESIGN.md section 2, C17',
+		'note': 'A handler exception counts as refusal (Procedure wraps it into an Errors.Error). Outside: float chains, enum references through the pipeline, escapes/prefixes in strings. ' + NOTE_COMMON + ' K2 additionally trusts cvc5 1.4 (fp-exp) and smt/specialise.py.',
+	},
 	'C18': {
 		'category': 'model_checking',
 		'technique': 'bounded symbolic execution (CrossHair + z3) of the real helpers against an independent reference splitter; counterexamples replayed concretely',
@@ -17,6 +44,14 @@ CHECKS = {
 			'(cuts exactly at top-level delimiters, pieces balanced, rejoin, last group = (prefix, inside), decorator/parameter reassembly). Bounded: nothing is claimed beyond the lengths in the evidence.',
 		'design_ref': 'DESIGN.md section 2, C18',
 		'note': 'Domain: brackets balanced outside quotes, quotes closed, no escapes, quoted strings with self-balanced brackets only; single-character delimiters. ' + NOTE_COMMON,
+	},
+	'C19': {
+		'category': 'model_checking',
+		'technique': 'bounded symbolic case analysis (CrossHair + z3) over operation histories of the real DI/LazyDI containers against a reference model; observation sweep after every history',
+		'text': 'Every history of 3 (quick) / 4 (thorough) operations over 44 operation codes (bind-or-rebind, unbind, resolve, invoke with two argument vectors on three targets, combine in both directions; three containers, two symbols, lazy by-name and direct definitions) '
+			'is executed on the real containers and on a reference model stating the property\'s sentences; after each step can_resolve agrees, at the end every symbol is resolved twice on every container and instance identity, instance type and ValueErrors are compared.',
+		'design_ref': 'DESIGN.md section 2, C19',
+		'note': 'Finite case split (F): operation codes are symbolic ints decoded by comparison; the real code then runs natively. Universe and history length bounded as stated. ' + NOTE_COMMON,
 	},
 }
 
@@ -71,6 +106,6 @@ def main() -> None:
 
 if __name__ == '__main__':
 	# properties still being built are listed under not_applicable with that reason until their check lands
-	for pid in ['C01', 'C05', 'C06', 'C07', 'C08', 'C09', 'C10', 'C11', 'C12', 'C13', 'C14', 'C15', 'C16', 'C17', 'C19']:
+	for pid in ['C01', 'C05', 'C06', 'C07', 'C08', 'C09', 'C11', 'C12', 'C14', 'C15', 'C16']:
 		PENDING[pid] = 'check designed (DESIGN.md section 2) but not landed yet in this commit; not claimed until it is.'
 	main()
